@@ -128,8 +128,6 @@ structure DBRun where
   cover : Std.HashMap String Nat := {}
   clauseEvals : Nat := 0
 
-def bump (m : Std.HashMap String Nat) (k : String) : Std.HashMap String Nat :=
-  m.insert k (m.getD k 0 + 1)
 
 /-- Process one line; returns new state and output lines (only problems are printed). -/
 def dbLine (st : DBRun) (lineNo : Nat) (line : String) : Except String (DBRun × List String) :=
